@@ -5,7 +5,12 @@
 (* 3*depth + 2 (priming, steady state, reset, priming again), directly and *)
 (* through the Converter at ratio 1.  Source frame number j carries the    *)
 (* value j + 1, so every frame is distinguishable from every other and     *)
-(* from silence (0).                                                       *)
+(* from silence (0) -- or, round 4b, it is an exact ZERO frame (PushZero / *)
+(* ConvZero, at most MaxZ per behaviour): runs of silence of every length  *)
+(* at every point of a history.  Round 4b also checks the LARGE depths     *)
+(* BigDepths (the property quantifies over every depth): straight          *)
+(* histories of 3*depth + 2 pushes with one reset at depth - 1, depth,     *)
+(* depth + 1 or 2*depth + 1 pushes, and the converter chain.               *)
 (*   GridDelay  at x = 0 layer 2 (centre tap of the ring) = layer 1 (the   *)
 (*              frame pushed depth pushes ago, silence before)             *)
 (*   ConvDelay  k-th converter output = source frame k - depth, k pulled   *)
@@ -16,11 +21,21 @@
 (*              grid is 0)                                                 *)
 (*   ResetInit  reset restores the initial state exactly                   *)
 (*   RingOK     the ring's representation invariant                        *)
+(*   KernelForm at ANY position the tap sum as coded (abstract kernel      *)
+(*              weights; two test kernels with pairwise distinct weights)  *)
+(*              = the layer-1 linear form over the buffered frames         *)
+(*              BufLin(hist, ..): a function of the last 2*depth frames    *)
+(*              only, linear in them                                       *)
+(*   SilentOut  a silent buffer gives silence (and only the buffer counts: *)
+(*              a history of zeros is as good as a fresh interpolator)     *)
 (* Also writes the stimuli for the Rust harness (IOEnv.STIM_OUT).          *)
 (***************************************************************************)
 EXTENDS Sinc, FiniteSets, TLC, Json, IOUtils, SequencesExt
 
-CONSTANTS MaxDepth, MaxResets
+CONSTANTS MaxDepth, MaxResets,
+          BigDepths,   \* large depths that are model-checked too (straight histories)
+          MaxZ,        \* exact-zero frames per behaviour (small depths)
+          GridDepths   \* large depths for which grid stimuli are written
 VARIABLES mode,     \* "direct" | "conv"
           depth,
           s,        \* layer 2: the interpolator (direct) / the converter's interpolator
@@ -28,47 +43,60 @@ VARIABLES mode,     \* "direct" | "conv"
           hist,     \* layer 1: frames pushed since the last reset
           ops,      \* number of operations so far
           nres,     \* resets so far
+          nz,       \* exact-zero frames pushed so far
           out,      \* last grid output: [v, want]
           wasReset  \* the last operation was a reset
-vars == << mode, depth, s, cv, hist, ops, nres, out, wasReset >>
+vars == << mode, depth, s, cv, hist, ops, nres, nz, out, wasReset >>
 
 Bound == 3 * depth + 2
+Small == depth <= MaxDepth
 SrcVal(j) == j + 1                     \* j-th source frame (0-based)
 
-Init == /\ mode \in {"direct", "conv"} /\ depth \in 1..MaxDepth
+Init == /\ mode \in {"direct", "conv"} /\ depth \in (1..MaxDepth) \cup BigDepths
         /\ s = SincNew(depth) /\ cv = [acc |-> 0, pulled |-> 0]
-        /\ hist = << >> /\ ops = 0 /\ nres = 0 /\ wasReset = FALSE
+        /\ hist = << >> /\ ops = 0 /\ nres = 0 /\ nz = 0 /\ wasReset = FALSE
         /\ out = [v |-> SInterp0(SincNew(depth)), want |-> Silence]
 
-\* direct: push the next source frame, then interpolate at x = 0
-Push ==
+\* direct: push a source frame, then interpolate at x = 0
+PushV(v) ==
   /\ mode = "direct" /\ ops < Bound
-  /\ LET v == SrcVal(cv.pulled) s1 == SPush(s, v) h1 == Append(hist, v) IN
+  /\ LET s1 == SPush(s, v) h1 == Append(hist, v) IN
      /\ s' = s1 /\ hist' = h1 /\ cv' = [cv EXCEPT !.pulled = @ + 1]
      /\ out' = [v |-> SInterp0(s1), want |-> Grid(h1, depth)]
   /\ ops' = ops + 1 /\ wasReset' = FALSE /\ UNCHANGED << mode, depth, nres >>
+Push == PushV(SrcVal(cv.pulled)) /\ nz' = nz
+PushZero == Small /\ nz < MaxZ /\ PushV(Silence) /\ nz' = nz + 1
 \* direct: Interpolator::reset, then interpolate at x = 0
 Reset ==
-  /\ mode = "direct" /\ ops < Bound /\ nres < MaxResets
+  /\ mode = "direct" /\ ops < Bound
+  /\ IF Small THEN nres < MaxResets
+     ELSE nres = 0 /\ Len(hist) \in {depth - 1, depth, depth + 1, 2 * depth + 1}
   /\ s' = SReset(s) /\ hist' = << >>
   /\ out' = [v |-> SInterp0(SReset(s)), want |-> Silence]
-  /\ ops' = ops + 1 /\ nres' = nres + 1 /\ wasReset' = TRUE /\ UNCHANGED << mode, depth, cv >>
-\* through the Converter at ratio 1
-Conv ==
+  /\ ops' = ops + 1 /\ nres' = nres + 1 /\ wasReset' = TRUE /\ UNCHANGED << mode, depth, cv, nz >>
+\* through the Converter at ratio 1; v = the frame the source yields if it is pulled
+ConvV(v) ==
   /\ mode = "conv" /\ ops < Bound
-  /\ LET r == ConvNext([s |-> s, acc |-> cv.acc, pulled |-> cv.pulled], SrcVal(cv.pulled)) IN
+  /\ LET r == ConvNext([s |-> s, acc |-> cv.acc, pulled |-> cv.pulled], v)
+         h1 == IF r.c.pulled > cv.pulled THEN Append(hist, v) ELSE hist
+     IN
      /\ s' = r.c.s /\ cv' = [acc |-> r.c.acc, pulled |-> r.c.pulled]
-     /\ hist' = IF r.c.pulled > cv.pulled THEN Append(hist, SrcVal(cv.pulled)) ELSE hist
-     /\ out' = [v |-> r.out, want |-> IF ops - depth >= 0 THEN SrcVal(ops - depth) ELSE Silence]
+     /\ hist' = h1
+     /\ out' = [v |-> r.out, want |-> IF ops - depth >= 0 THEN h1[ops - depth + 1] ELSE Silence]
      /\ r.x = 0                                    \* always on the grid
   /\ ops' = ops + 1 /\ UNCHANGED << mode, depth, nres, wasReset >>
-Next == Push \/ Reset \/ Conv
+Conv == ConvV(SrcVal(cv.pulled)) /\ nz' = nz
+\* (the very first call pulls nothing: a zero there would be the same behaviour as Conv)
+ConvZero == Small /\ nz < MaxZ /\ cv.acc >= 1 /\ ConvV(Silence) /\ nz' = nz + 1
+Next == Push \/ PushZero \/ Reset \/ Conv \/ ConvZero
 Spec == Init /\ [][Next]_vars
 
 ---------------------------------------------------------------------------
 GridDelay == out.v = out.want /\ out.v = Grid(hist, depth)
+\* (hist = the source frames pulled so far: there is no reset in converter mode)
 ConvDelay == mode = "conv" => /\ cv.pulled = (IF ops = 0 THEN 0 ELSE ops - 1)
-                              /\ (ops > 0 => out.v = ConvOut([j \in 1..cv.pulled |-> SrcVal(j - 1)], depth, ops - 1))
+                              /\ Len(hist) = cv.pulled
+                              /\ (ops > 0 => out.v = ConvOut(hist, depth, ops - 1))
 TapRange ==
   LET N == 2 * depth
       taps == LeftTaps(s) \cup RightTaps(s)
@@ -83,36 +111,133 @@ RingOK == RB!FRepOK(s.f) /\ RB!FLen(s.f) = 2 * depth
 \* the interpolator is primed after depth pushes and then stays primed until reset
 IdxLaw == s.idx = (IF Len(hist) <= depth THEN Len(hist) ELSE depth)
 
+\* two abstract kernels with pairwise distinct tap weights (a tap read from the wrong frame changes the sum)
+K1L == [n \in 0..(depth - 1) |-> 2 * n + 1]
+K1R == [n \in 0..(depth - 1) |-> 2 * n + 2]
+K2L == [n \in 0..(depth - 1) |-> (n + 1) * (n + 1)]
+K2R == [n \in 0..(depth - 1) |-> (n + 1) * (n + 1) + n + 2]
+KernelForm == /\ SInterpK(s, K1L, K1R) = BufLin(hist, depth, K1L, K1R)
+              /\ SInterpK(s, K2L, K2R) = BufLin(hist, depth, K2L, K2R)
+              /\ SMaxDepth(s) = HalfWidth(hist, depth) /\ s.idx = Centre(hist, depth)
+SilentOut == BufSilent(hist, depth) => /\ SInterpK(s, K1L, K1R) = Silence /\ SInterpK(s, K2L, K2R) = Silence
+                                       /\ \A i \in 0..(2 * depth - 1) : RB!FGet(s.f, i) = Silence
+
 ---------------------------------------------------------------------------
-(* stimuli: maximal histories; frame values are small integers n (i16: n, floats: n / 2^15, exact, i32: see Fmts) *)
+(* stimuli: maximal histories; frame values are small integers n = the AMPLITUDE in i16 units (i16: n, u16: n + 2^15,
+   i8 / u8: n / 256, floats: n / 2^15, exact, 32-bit formats: see the harness, enc.rs) *)
 HistSet(d) == { h \in [1..(3 * d + 2) -> {"p", "r"}] : Cardinality({ i \in 1..(3 * d + 2) : h[i] = "r" }) <= MaxResets }
 PushCount(h, i) == Cardinality({ j \in 1..i : h[j] = "p" })
 Val(j, ch) == [c \in 1..ch |-> (IF j % 2 = 0 THEN 1 ELSE -1) * (256 * ((j % 7) + 1) + 64 * c)]
+Interp(x) == [ev |-> "interp", a |-> [x |-> x]]
+NextEv == [ev |-> "next", a |-> [x |-> 0]]
 DirectOps(h, ch) ==
   LET n == Len(h)
       one(i) == IF h[i] = "p"
-                  THEN << [ev |-> "push", a |-> [v |-> Val(PushCount(h, i), ch)]], [ev |-> "interp", a |-> [x |-> 0]] >>
-                  ELSE << [ev |-> "clear", a |-> [x |-> 0]], [ev |-> "interp", a |-> [x |-> 0]] >>
-      F[i \in 0..n] == IF i = 0 THEN << [ev |-> "interp", a |-> [x |-> 0]] >> ELSE F[i - 1] \o one(i)
+                  THEN << [ev |-> "push", a |-> [v |-> Val(PushCount(h, i), ch)]], Interp(0) >>
+                  ELSE << [ev |-> "clear", a |-> [x |-> 0]], Interp(0) >>
+      F[i \in 0..n] == IF i = 0 THEN << Interp(0) >> ELSE F[i - 1] \o one(i)
   IN F[n]
 \* (i32: the harness maps n to n * 2^20 + odd low bits -- near full scale, more significant bits than an f32)
-Fmts == { << "f64", 1 >>, << "f32", 1 >>, << "i16", 1 >>, << "f32", 2 >>, << "i32", 1 >>, << "i32", 2 >> }
+Fmts == { << "f64", 1 >>, << "f32", 1 >>, << "i16", 1 >>, << "f32", 2 >>, << "i32", 1 >>, << "i32", 2 >>,
+          << "u16", 2 >>, << "i8", 1 >> }
+ConvFmts == Fmts \cup { << "u8", 1 >>, << "u32", 1 >> }
+Ctors == << "scale", "sample", "hz" >>
 DirectStim == UNION { UNION { { << [ev |-> "reset", comp |-> "sinc", cfg |-> [depth |-> d, fmt |-> fc[1], ch |-> fc[2]]] >> \o DirectOps(h, fc[2])
                                 : h \in HistSet(d) } : fc \in Fmts } : d \in 1..MaxDepth }
-ConvStim == UNION { UNION { { << [ev |-> "reset", comp |-> "sinc_conv",
-                                  cfg |-> [depth |-> d, fmt |-> fc[1], ch |-> fc[2], ctor |-> ct,
-                                           src |-> [j \in 1..(2 * d + 2) |-> Val(j, fc[2])]]] >>
-                               \o [i \in 1..(3 * d + 4) |-> [ev |-> "next", a |-> [x |-> 0]]]
-                              : ct \in {"scale", "sample", "hz"} } : fc \in Fmts } : d \in 1..MaxDepth }
+ConvReset(d, fc, ct) == [ev |-> "reset", comp |-> "sinc_conv",
+                         cfg |-> [depth |-> d, fmt |-> fc[1], ch |-> fc[2], ctor |-> ct,
+                                  src |-> [j \in 1..(2 * d + 2) |-> Val(j, fc[2])]]]
+ConvStim == UNION { UNION { { << ConvReset(d, fc, ct) >> \o [i \in 1..(3 * d + 4) |-> NextEv]
+                              : ct \in {"scale", "sample", "hz"} } : fc \in ConvFmts } : d \in 1..MaxDepth }
 \* round 4: the last frames read by consuming the converter through the provided Signal::take (`tail{m}`),
 \* from the start, after the priming phase, and for the very last frame
-TailStim == UNION { UNION { { << [ev |-> "reset", comp |-> "sinc_conv",
-                                  cfg |-> [depth |-> d, fmt |-> fc[1], ch |-> fc[2], ctor |-> (<< "scale", "sample", "hz" >>)[(p % 3) + 1],
-                                           src |-> [j \in 1..(2 * d + 2) |-> Val(j, fc[2])]]] >>
-                               \o [i \in 1..p |-> [ev |-> "next", a |-> [x |-> 0]]]
+TailStim == UNION { UNION { { << ConvReset(d, fc, Ctors[(p % 3) + 1]) >>
+                               \o [i \in 1..p |-> NextEv]
                                \o << [ev |-> "tail", a |-> [m |-> 3 * d + 4 - p]] >>
                               : p \in {0, d, d + 1, 3 * d + 3} } : fc \in Fmts } : d \in 1..MaxDepth }
-Stimuli == DirectStim \cup ConvStim \cup TailStim
+
+\* round 4b (a): the grid clauses at LARGE depths, every integer width and signedness (ratio-1 converter over
+\* 2 d + 2 distinct frames, then silence; direct: priming, steady state, clear, priming again, x = 0 throughout)
+GridFmtSeq == << << "i16", 1 >>, << "i32", 2 >>, << "u16", 2 >>, << "i8", 1 >>, << "u8", 1 >>, << "u32", 1 >>,
+                 << "f64", 1 >>, << "f32", 2 >>, << "i16", 2 >>, << "i32", 1 >> >>
+BigConvStim == UNION { { << ConvReset(d, GridFmtSeq[i], Ctors[((d + i) % 3) + 1]) >> \o [j \in 1..(3 * d + 4) |-> NextEv]
+                         : i \in 1..Len(GridFmtSeq) } : d \in GridDepths }
+PushEv(j, ch) == << [ev |-> "push", a |-> [v |-> Val(j, ch)]], Interp(0) >>
+BigDirectOps(d, ch) ==
+  LET n == 2 * d + 3
+      F[i \in 0..n] == IF i = 0 THEN << Interp(0) >>
+                       ELSE IF i = d + 3 THEN F[i - 1] \o << [ev |-> "clear", a |-> [x |-> 0]], Interp(0) >>
+                       ELSE F[i - 1] \o PushEv(i, ch)
+  IN F[n]
+BigDirectStim == UNION { { << [ev |-> "reset", comp |-> "sinc", cfg |-> [depth |-> d, fmt |-> fc[1], ch |-> fc[2]]] >> \o BigDirectOps(d, fc[2])
+                           : fc \in { << "i16", 1 >>, << "i32", 1 >>, << "u8", 2 >>, << "f32", 1 >> } } : d \in GridDepths }
+
+\* round 4b (b): linearity on inputs with value-dependent structure.  Four instances are fed a, b, a + b, 2^k a
+\* (`step`: push + interpolate at x/16; `probe`: interpolate again elsewhere).  One of the inputs is "special", the
+\* other dense (never silent, all frames different), so that a + b is dense too:
+\*   zero runs   p dense frames (p = 0: leading zeros; 1; 2 d: a full buffer), then z exact zeros for EVERY
+\*               z in 0 .. 2 d + 1, then 2 dense frames; the special input is a, or b, or b = -a during the run
+\*               (then it is a + b that falls silent)
+\*   const       a run of 2 d + 1 equal frames; alt: alternating extremes; same: b = a; allzero; bothzero
+LinFmtSeq == << << "f64", 1 >>, << "i16", 1 >>, << "f32", 2 >>, << "i32", 1 >>, << "u16", 2 >>, << "f64", 2 >>,
+                << "i16", 2 >>, << "u32", 1 >> >>
+IsFloatFmt(fc) == fc[1] \in {"f64", "f32"}
+Dense(t, i, ch) == [c \in 1..ch |-> (IF (i + t) % 2 = 0 THEN 1 ELSE -1) * (256 * (((i + 3 * t) % 7) + 1) + 64 * c)]
+NegF(f) == [c \in 1..Len(f) |-> 0 - f[c]]
+ZeroF(ch) == [c \in 1..ch |-> 0]
+StepEv(va, vb, x) == [ev |-> "step", a |-> [va |-> va, vb |-> vb, x |-> x]]
+ProbeEv(x) == [ev |-> "probe", a |-> [x |-> x]]
+LinReset(d, fc, k) == [ev |-> "reset", comp |-> "sinc_lin", cfg |-> [depth |-> d, fmt |-> fc[1], ch |-> fc[2], k |-> k]]
+LinK(fc, i) == IF IsFloatFmt(fc) THEN (i % 17) - 8 ELSE (i % 5) - 2
+\* who = 1: a has the zero run; 2: b has it; 3: b = -a during the run
+ZeroRunOps(d, ch, p, z, who) ==
+  LET n == p + z + 2
+      inrun(i) == i > p /\ i <= p + z
+      va(i) == IF who = 1 /\ inrun(i) THEN ZeroF(ch) ELSE Dense(1, i, ch)
+      vb(i) == IF who = 2 /\ inrun(i) THEN ZeroF(ch)
+               ELSE IF who = 3 /\ inrun(i) THEN NegF(Dense(1, i, ch)) ELSE Dense(2, i, ch)
+      F[i \in 0..n] == IF i = 0 THEN << >>
+                       ELSE F[i - 1] \o << StepEv(va(i), vb(i), ((5 * i + z) % 15) + 1), ProbeEv(8), ProbeEv((3 * i + p) % 16) >>
+  IN F[n]
+ZeroRunStim == UNION { UNION { UNION { { << LinReset(d, LinFmtSeq[((d + p + z + who) % Len(LinFmtSeq)) + 1], LinK(LinFmtSeq[((d + p + z + who) % Len(LinFmtSeq)) + 1], z + who)) >>
+                                         \o ZeroRunOps(d, LinFmtSeq[((d + p + z + who) % Len(LinFmtSeq)) + 1][2], p, z, who)
+                                         : who \in 1..3 } : z \in 0..(2 * d + 1) } : p \in {0, 1, 2 * d} } : d \in 1..MaxDepth }
+\* extremes: full scale for floats (no overflow there), the top of the dense range for integers
+Top(fc) == IF IsFloatFmt(fc) THEN 32767 ELSE 1920
+SpecialOps(d, fc, kind) ==
+  LET ch == fc[2]
+      n == 2 * d + 5
+      mid(i) == i > 2 /\ i <= n - 2
+      va(i) == CASE kind = "const" /\ mid(i) -> Dense(1, 3, ch)
+                 [] kind = "alt" /\ mid(i) -> [c \in 1..ch |-> IF i % 2 = 0 THEN Top(fc) ELSE 0 - Top(fc)]
+                 [] kind \in {"allzero", "bothzero"} -> ZeroF(ch)
+                 [] OTHER -> Dense(1, i, ch)
+      vb(i) == CASE kind = "same" -> Dense(1, i, ch)
+                 [] kind = "bothzero" -> ZeroF(ch)
+                 [] OTHER -> Dense(2, i, ch)
+      F[i \in 0..n] == IF i = 0 THEN << ProbeEv(8) >>
+                       ELSE F[i - 1] \o << StepEv(va(i), vb(i), ((7 * i) % 15) + 1), ProbeEv((5 * i) % 16) >>
+  IN F[n]
+SpecialKinds == << "const", "alt", "same", "allzero", "bothzero" >>
+SpecialStim == UNION { UNION { { << LinReset(d, LinFmtSeq[((d + ki + r) % Len(LinFmtSeq)) + 1], LinK(LinFmtSeq[((d + ki + r) % Len(LinFmtSeq)) + 1], d + ki)) >>
+                                 \o SpecialOps(d, LinFmtSeq[((d + ki + r) % Len(LinFmtSeq)) + 1], SpecialKinds[ki])
+                                 : r \in {0, 3} } : ki \in 1..Len(SpecialKinds) } : d \in 1..MaxDepth }
+\* the same through four real Converters at a ratio other than 1 (`sinc_clin`): a = a burst of 3 frames, z in
+\* {d, d + 1, 2 d} zeros, 3 more frames; b dense; read until every source frame has left the buffer
+Ratios == << << 1, 2 >>, << 3, 10 >>, << 3, 2 >>, << 7, 16 >> >>
+ClinSrc(t, z, ch) == [i \in 1..(z + 6) |-> IF t = 1 /\ i > 3 /\ i <= 3 + z THEN ZeroF(ch) ELSE Dense(t, i, ch)]
+ClinStim == UNION { UNION { { LET fc == LinFmtSeq[((d + ri + z) % Len(LinFmtSeq)) + 1]
+                                  rt == Ratios[ri]
+                                  nout == (((z + 6 + 2 * d + 2) * rt[2]) \div rt[1]) + 1
+                              IN << [ev |-> "reset", comp |-> "sinc_clin",
+                                     cfg |-> [depth |-> d, fmt |-> fc[1], ch |-> fc[2], k |-> LinK(fc, z + ri),
+                                              num |-> rt[1], den |-> rt[2], ctor |-> Ctors[((d + ri) % 3) + 1],
+                                              a |-> ClinSrc(1, z, fc[2]), b |-> ClinSrc(2, z, fc[2])]] >>
+                                 \o [i \in 1..nout |-> NextEv]
+                              : z \in {d, d + 1, 2 * d} } : ri \in 1..Len(Ratios) } : d \in 1..MaxDepth }
+
+Stimuli == DirectStim \cup ConvStim \cup TailStim \cup BigConvStim \cup BigDirectStim
+           \cup ZeroRunStim \cup SpecialStim \cup ClinStim
 WriteStimuli ==
   IF "STIM_OUT" \in DOMAIN IOEnv
     THEN /\ ndJsonSerialize(IOEnv.STIM_OUT, SetToSeq(Stimuli))
